@@ -17,6 +17,18 @@ def main():
     run.assumptions += ["worker functions are slice-wise (row-wise) along the mapped dim; imap preserves submission order (CPython multiprocessing)"]
     run.build_and_audit(["TdVerif.Props.C12"])
     drv = run.driver()
+    import json
+    from common import VERIF
+    import c12_map
+    if run.replay:
+        # ./check C12 --replay <file>: re-run the failing inputs recorded in a replay file
+        rep = json.loads(open(run.replay).read())
+        n = c12_map.replay_cases(run, drv, [f.get("case") for f in rep.get("failures", [])])
+        run.notes.append(f"replayed {n} recorded map cases from {run.replay}")
+        run.finish("proof")
+    corpus = [json.loads(p.read_text()) for p in sorted((VERIF / "corpus" / "C12").glob("*.json"))]
+    run.count("corpus.cases", len(corpus))
+    c12_map.replay_cases(run, drv, [c["case"] for c in corpus], stream="map(corpus)")
     import c12_split
     c12_split.run_split(run, drv)
     if "--split-only" not in __import__("sys").argv:
